@@ -44,6 +44,7 @@ type Exec struct {
 	globals   map[*ssa.Global]*Term
 	cellCtr   int
 	noOverflow bool
+	signedWrap bool
 	maxPaths  int
 	block     *BlockSpec
 	oldHeapOf map[*Term]map[string]*Term
@@ -1134,6 +1135,15 @@ func (x *Exec) wrapInt(st *State, r *Term, t types.Type, pos token.Pos) Value {
 	}
 	bits, signed, _ := intBits(b)
 	lo, hi := intRange(bits, signed)
+	if signed && x.signedWrap {
+		// two's-complement wrap-around, as the language defines it (opt signedwrap)
+		if v, ok := r.IntVal(); ok && v.Cmp(lo) >= 0 && v.Cmp(hi) <= 0 {
+			return TV{r, t}
+		}
+		m := new(big.Int).Lsh(big.NewInt(1), uint(bits))
+		half := new(big.Int).Rsh(m, 1)
+		return TV{Sub(App("mod", SInt, Add(r, IntLitBig(half)), IntLitBig(m)), IntLitBig(half)), t}
+	}
 	if signed {
 		x.oblige(st, "safety", "overflow", And(Le(IntLitBig(lo), r), Le(r, IntLitBig(hi))), pos, nil)
 		return TV{r, t}
@@ -1306,7 +1316,35 @@ func (x *Exec) binop(st *State, op token.Token, xv, yv Value, rt types.Type, pos
 					return TV{IntLitBig(r), rt}
 				}
 			}
-			// byte-wide bit operations: go through 8-bit vectors is avoided; use an uninterpreted function
+			// 8-bit operands: exact, by bit decomposition
+			if b8, ok := rt.Underlying().(*types.Basic); ok && b8.Kind() == types.Uint8 {
+				var sum *Term = IntLit(0)
+				for i := 0; i < 8; i++ {
+					p := IntLit(1 << uint(i))
+					bit := func(t *Term) *Term {
+						if v, ok := t.IntVal(); ok {
+							return IntLit(int64(v.Bit(i)))
+						}
+						return App("mod", SInt, App("div", SInt, t, p), IntLit(2))
+					}
+					ba, bb := bit(at), bit(bt)
+					var r *Term
+					one := func(t *Term) *Term { return Eq(t, IntLit(1)) }
+					switch op {
+					case token.AND:
+						r = Ite(And(one(ba), one(bb)), p, IntLit(0))
+					case token.OR:
+						r = Ite(Or(one(ba), one(bb)), p, IntLit(0))
+					case token.XOR:
+						r = Ite(Not(Eq(ba, bb)), p, IntLit(0))
+					default:
+						r = Ite(And(one(ba), Not(one(bb))), p, IntLit(0))
+					}
+					sum = Add(sum, r)
+				}
+				return TV{sum, rt}
+			}
+			// wider bit operations on mathematical integers: uninterpreted
 			fn := map[token.Token]string{token.AND: "int-and", token.OR: "int-or", token.XOR: "int-xor", token.AND_NOT: "int-andnot"}[op]
 			x.assumeNote("bitwise " + op.String() + " on mathematical integers is uninterpreted (" + fn + ")")
 			return x.freshFromApp(st, fn, rt, at, bt)
@@ -1426,6 +1464,21 @@ func (x *Exec) shift(st *State, op token.Token, a, b TV, rt types.Type, pos toke
 			}
 			// arithmetic shift right = floor division
 			return TV{App("div", SInt, at, IntLitBig(p)), rt}
+		}
+		// variable count on an unsigned value modelled as Int: 2^k by case split
+		if isUnsignedType(rt) && bt.Sort == SInt {
+			bits, _, _ := intBits(rt.Underlying().(*types.Basic))
+			if !isUnsignedType(b.Ty) {
+				x.oblige(st, "safety", "negative-shift", Le(IntLit(0), bt), pos, nil)
+			}
+			var pow *Term = IntLit(0) // count >= width: everything shifted out
+			for i := bits - 1; i >= 0; i-- {
+				pow = Ite(Eq(bt, IntLit(int64(i))), IntLitBig(new(big.Int).Lsh(big.NewInt(1), uint(i))), pow)
+			}
+			if op == token.SHL {
+				return x.wrapInt(st, Mul(at, pow), rt, pos)
+			}
+			return TV{Ite(Eq(pow, IntLit(0)), IntLit(0), App("div", SInt, at, pow)), rt}
 		}
 	}
 	unsup("shift %s of sort %s by sort %s", op, at.Sort, bt.Sort)
@@ -1588,6 +1641,9 @@ func (x *Exec) makeInterface(st *State, v Value, from, to types.Type) Value {
 	st.assume(Not(Eq(t, Atom("iface-nil", SIface))))
 	x.declareFun("dyntype", "(declare-fun dyntype (Iface) Int)")
 	st.assume(Eq(App("dyntype", SInt, t), IntLit(int64(x.v.typeID(from)))))
+	ufn := "unbox_" + x.ti.typeKey(from)
+	x.declareFun(ufn, fmt.Sprintf("(declare-fun %s (Iface) %s)", ufn, tv.T.Sort))
+	st.assume(Eq(App(ufn, tv.T.Sort, t), tv.T))
 	return TV{t, to}
 }
 
